@@ -120,6 +120,10 @@ pub struct Case {
     /// alone, next to an entry that was never listed, in either order, with or without a restart)
     #[serde(default)]
     pub allow_edit: u8,
+    /// API group: the signer runs with OnchainValidatorFactory (vlsd's default) and the channel's
+    /// funding transaction is confirmed on the tracker's chain
+    #[serde(default)]
+    pub onchain: bool,
 }
 
 fn delta_strat() -> impl Strategy<Value = Delta> {
@@ -274,9 +278,10 @@ impl Prop for C07 {
             (any::<bool>(), any::<bool>(), prop_oneof![3 => Just(Upfront::None), 1 => Just(Upfront::Wallet), 1 => Just(Upfront::Allowlisted)], delta_strat(), any::<bool>()),
             (prop::bool::weighted(0.12), prop::bool::weighted(0.12), prop::bool::weighted(0.04), prop::bool::weighted(0.04), prop::bool::weighted(0.2)),
             (any::<bool>(), kind_strat(), prop::bool::weighted(0.8), delta_strat(), any::<bool>()),
-            (prop_oneof![1 => Just(RateSel::MinMinus3), 2 => Just(RateSel::Min), 5 => Just(RateSel::Mid), 2 => Just(RateSel::Max), 1 => Just(RateSel::MaxPlus3), 1 => Just(RateSel::Zero)], any::<bool>(), prop::bool::weighted(0.08), prop::bool::weighted(0.1), prop::bool::weighted(0.12), prop::bool::weighted(0.4), prop_oneof![12 => Just(None), 1 => (0u8..2, 0u8..3).prop_map(Some)], 1u8..7),
+            (prop_oneof![1 => Just(RateSel::MinMinus3), 2 => Just(RateSel::Min), 5 => Just(RateSel::Mid), 2 => Just(RateSel::Max), 1 => Just(RateSel::MaxPlus3), 1 => Just(RateSel::Zero)], any::<bool>(), prop::bool::weighted(0.08), prop::bool::weighted(0.1), prop::bool::weighted(0.12), prop::bool::weighted(0.4), prop_oneof![12 => Just(None), 1 => (0u8..2, 0u8..3).prop_map(Some)], 1u8..7, prop::bool::weighted(0.35)),
         )
-            .prop_map(|((anchors, outbound, upfront, view_delta, view_delta_neg), (htlc_in_holder, htlc_in_cp, mh, mc, remove_allowlisted), (phase1, holder_script, hseu, prop_delta, prop_delta_neg), (rate, holder_first, extra_output, cp_zero, cp_takes_holder_share, holder_replaced, wire, allow_edit))| Case {
+            .prop_map(|((anchors, outbound, upfront, view_delta, view_delta_neg), (htlc_in_holder, htlc_in_cp, mh, mc, remove_allowlisted), (phase1, holder_script, hseu, prop_delta, prop_delta_neg), (rate, holder_first, extra_output, cp_zero, cp_takes_holder_share, holder_replaced, wire, allow_edit, onchain))| Case {
+                onchain: onchain && wire.is_none(),
                 anchors, outbound, upfront, view_delta, view_delta_neg, htlc_in_holder, htlc_in_cp, missing_holder_commitment: mh, missing_cp_commitment: mc, remove_allowlisted,
                 phase1, holder_script, holder_script_equals_upfront: hseu, prop_delta, prop_delta_neg, rate, holder_first, extra_output, cp_zero, cp_takes_holder_share, holder_replaced, wire, allow_edit,
             })
@@ -287,7 +292,8 @@ impl Prop for C07 {
         if let Some((idx_sel, dest_sel)) = case.wire {
             return self.run_wire(case, idx_sel, dest_sel, st, ctx);
         }
-        let mut w = World::new(WorldCfg::default_testnet());
+        let mut w = if case.onchain { World::new_onchain(WorldCfg::default_testnet()) } else { World::new(WorldCfg::default_testnet()) };
+        st.class(if case.onchain { "onchain-factory" } else { "simple-factory" });
         let secp = w.secp.clone();
         let net = Network::Testnet;
         let wallet = Wallet { xpub: w.node.get_account_extended_pubkey(), network: net };
@@ -315,6 +321,8 @@ impl Prop for C07 {
             Upfront::Allowlisted => Some(allow_script.clone()),
         };
         w.chans[ci].setup.holder_shutdown_script = upfront_script.clone();
+        // with the on-chain validator the funding transaction is a real one, confirmed below
+        let funding_tx = if case.onchain { Some(crate::chainpool::funding_tx_for(&mut w, ci)) } else { None };
         {
             let node = w.node.clone();
             let id0 = w.chans[ci].id0.clone();
@@ -326,6 +334,9 @@ impl Prop for C07 {
                 return Ok(());
             }
             w.chans[ci].is_ready = true;
+        }
+        if let Some(ftx) = &funding_tx {
+            crate::chainpool::confirm_tx(&mut w, ftx, 1);
         }
 
         // commitments
